@@ -172,8 +172,13 @@ pub fn gen_distinct_on_case(t: &mut crate::tape::Tape) -> DistinctOnCase {
     // (the inner sort may mention a group key, in any position)
     let sort = *t.pick(&["-id", "b, -id", "id", "-b, id", "(a + id)", "id, a", "-id, -a, b", "a, -id", "b, a, id"]);
     let pre = *t.pick(&["", " | filter id > 0", " | derive {c = a + b}"]);
-    let grp = format!("from t1 | select {{id, a, b}}{pre} | select {{id, a, b}} | group {{{keys}}} (sort {{{sort}}} | take 1)");
-    let other = "(from t2 | select {id, a, b})";
+    // (over a relation of unknown columns the inner pipeline may also name a group key)
+    let grp = if t.chance(1, 3) {
+        format!("from t1{} | group {{{keys}}} (sort {{{sort}}} | take 1)", if pre.contains("derive") { "" } else { pre })
+    } else {
+        format!("from t1 | select {{id, a, b}}{pre} | select {{id, a, b}} | group {{{keys}}} (sort {{{sort}}} | take 1)")
+    };
+    let other = if grp.starts_with("from t1 | select") { "(from t2 | select {id, a, b})" } else { "t2" };
     let source = match t.choose(14) {
         0 => grp.clone(),
         1 => format!("{grp} | append {other}"),
